@@ -230,9 +230,13 @@ type Replay struct {
 		TraceHash uint64 `json:"trace_hash"`
 		Detail    string `json:"detail"`
 	} `json:"expect"`
-	Engine    string `json:"engine,omitempty"`
-	RefSteps  []Step `json:"ref_steps,omitempty"`
-	PureFault bool   `json:"pure_fault,omitempty"`
+	Engine string `json:"engine,omitempty"`
+	// OrderDependent: executions of this very schedule differed from one another
+	// (the code under test made its outcome depend on Go map iteration order);
+	// replay then tries several times and does not insist on the trace hash.
+	OrderDependent bool   `json:"order_dependent,omitempty"`
+	RefSteps       []Step `json:"ref_steps,omitempty"`
+	PureFault      bool   `json:"pure_fault,omitempty"`
 }
 
 func (r *Replay) spec() RunSpec {
@@ -258,17 +262,37 @@ func Minimize(t *testing.T, f Failure, budget time.Duration, engine string) *Rep
 	cfg := f.Config
 	steps := append([]Step{}, f.Steps...)
 	tries := 0
+	// The code under test walks Go maps (claims of one pod): a change that makes
+	// the outcome depend on that order fails only in some executions of the same
+	// schedule. A candidate therefore counts as failing if any of a few tries
+	// fails, and the replay file records whether executions differed.
 	fails := func(c *Config, st []Step) bool {
-		tries++
-		res := RunOne(t, RunSpec{Seed: f.Spec.Seed, Profile: f.Spec.Profile, Config: c, Steps: st})
-		return res.Harness == "" && findViolation(res, f.Violation.Prop, check, disc) != nil
+		for try := 0; try < 3; try++ {
+			tries++
+			res := RunOne(t, RunSpec{Seed: f.Spec.Seed, Profile: f.Spec.Profile, Config: c, Steps: st})
+			if res.Harness == "" && findViolation(res, f.Violation.Prop, check, disc) != nil {
+				return true
+			}
+		}
+		return false
 	}
 	out := func() *Replay {
 		r := &Replay{Property: f.Violation.Prop, Check: check, Disc: disc, Profile: f.Spec.Profile, Seed: f.Spec.Seed, Config: cfg, Steps: steps, Engine: engine}
-		res := RunOne(t, r.spec())
-		if v := findViolation(res, f.Violation.Prop, check, disc); v != nil {
-			r.Expect.TraceHash = res.TraceHash
-			r.Expect.Detail = v.Detail
+		hashes := map[uint64]bool{}
+		for try := 0; try < 8; try++ {
+			res := RunOne(t, r.spec())
+			hashes[res.TraceHash] = true
+			if v := findViolation(res, f.Violation.Prop, check, disc); v != nil && r.Expect.Detail == "" {
+				r.Expect.TraceHash = res.TraceHash
+				r.Expect.Detail = v.Detail
+			}
+			if try >= 1 && len(hashes) == 1 && r.Expect.Detail != "" {
+				break
+			}
+		}
+		r.OrderDependent = len(hashes) > 1
+		if r.Expect.Detail == "" {
+			return nil
 		}
 		return r
 	}
